@@ -292,7 +292,7 @@ def signature(kind, case, vecs, order):
 
 def mcb(case):
     """callback mode as the model knows it: a NULL user argument (cbn) changes nothing"""
-    return "cb" if case["cbm"] == "cbn" else case["cbm"]
+    return "cb" if case["cbm"] in ("cbn", "cbi") else case["cbm"]
 
 
 def compare_model(case, k, ph, model):
@@ -349,6 +349,8 @@ def gen_cases(tier, rng, n, groups):
         add(i, f, "cb", [[]], "baseline")
         add(i, f, "cb0", [[]], "baseline")
         add(i, f, "cbn", [[]], "baseline")
+        add(i, f, "cbi", [[]], "nested-init")
+        add(i, f, "cbi", [[rng.below(n)]], "nested-init")
     # exhaustive singles on every init function x flags
     for v in range(n):
         for ci, (i, f) in enumerate(COMBOS):
@@ -417,6 +419,10 @@ def evaluate(cases, outs, order, consts, model):
             continue
         c["_cpu"] = r["phases"][0]["pre_features"]
         c["_minit"] = "auto"
+        nest = [x for x in r.get("notes", []) if x.startswith("NEST ")]
+        if nest:
+            prop_fail.append((c, 0, [("nested-init-failed", [], "an independent manager initialised inside this manager's callback "
+                                      "(nothing corrupted there) did not pass: " + "; ".join(nest[:3]))], r))
         for k, ph in enumerate(r["phases"]):
             ninit += 1
             nev += len(ph["events"])
